@@ -101,6 +101,9 @@ def conv_in(T, o, cfg):
         return out
     if k in ('map', 'umap'):
         out = []
+        if not hasattr(o, 'items'):
+            # the property statement lists TypeError/ValueError/OverflowError for wrongly typed inputs
+            raise TypeError('a mapping is required')
         for key, value in o.items():
             out.append((conv_in(T[1], key, cfg), conv_in(T[2], value, cfg)))
         return out
@@ -251,3 +254,26 @@ def N(x):
     if isinstance(x, tuple):
         return tuple(N(e) for e in x)
     return x
+
+
+class _Trk:
+    """wrong-type element whose reference count is watched"""
+
+
+def LEAK(f, build):
+    """call f on a value holding one tracked (invalid) element; (outcome class, reference-count delta after the call)"""
+    import gc
+    import sys
+    t = _Trk()
+    gc.collect()
+    r0 = sys.getrefcount(t)
+    v = build(t)
+    try:
+        f(v)
+        out = 'ok'
+    except Exception as e:
+        out = type(e).__name__
+        e = None
+    v = None
+    gc.collect()
+    return (out, sys.getrefcount(t) - r0)
